@@ -76,6 +76,13 @@ FIXED_POOL = [
     (1, 1, 0, 1, "t.p.r_t.p.u"),
 ]
 PB_PAGES = [("c", 1, 2, "a1.d1_a1.d1"), ("c", 2, 2, "a2.d2_a2.d1"), ("bc", 1, 2, "a1.d1_a1")]
+# auto-create pool, the queue (2 x capacity slots) completely full at push_n time: more than `capacity` threads return
+# an object at once and all pass the `_capacity <= size()` pre-check before any push lands -> the compensating
+# reverse callback of push_n evicts (destroys) an object.  The window is three schedule points wide, so these programs
+# run under the random strategy with a high switch probability (param sw, carried in the params for re-execution).
+# (mode, cap, inject, rec, prog, switch permille)
+WINDOW_POOL = [(1, 1, 0, 1, "p_p_p", 850), (1, 1, 0, 1, "p_p_p_p", 500), (1, 1, 0, 1, "p_p_p_p", 850), (1, 1, 1, 1, "p.r_p_p_p", 700),
+               (1, 2, 0, 1, "p_p_p_p_p_p", 850)]
 PB_POOL = [(0, 1, 1, 1, "p.r_p.r"), (1, 1, 0, 1, "p.p.r.r_p.r")]
 
 
@@ -175,6 +182,8 @@ def rerun(key):
     args = ["--scenario", key["scenario"], "--params", params, "--seeds", "%d:%d" % (key["seed"], key["seed"] + 1), "--out", raw, "--max-steps", MAX_STEPS_PB if st == "pb" else MAX_STEPS]
     if key.get("script") and st == "pb":
         args += ["--strategy", "pb", "--script", ",".join(map(str, key["script"])), "--max-execs", "1"]
+    elif st == "random" and "sw" in p:
+        args += ["--strategy", "random", "--switch", str(p["sw"])]
     elif st in ("pct", "random"):
         args += ["--strategy", "mix"]
     else:
@@ -240,8 +249,16 @@ def run(pid, tier, seed, replay=None):
             e2, s2 = record(scn, [conv(gen(rng)) for _ in range(nrand)], (base, base + rseeds), "mix", os.path.join(tr, "%s_%s_rand" % (pid, scn)), jobs=4)
             e3, s3 = record(scn, [conv(p) for p in pbl], (1, 2), "pb", os.path.join(tr, "%s_%s_pb" % (pid, scn)),
                             extra=["--pb-bound", "2" if quick else "3", "--max-execs", "40" if quick else "2500"])
-            execs += e1 + e2 + e3
-            for s in (s1, s2, s3):
+            e4, s4 = [], {}
+            if scn == "pool":
+                nwin = 60 if quick else 600
+                for w in WINDOW_POOL:
+                    ew, sw_ = record(scn, [params_pool(w[:5]) + ",sw=%d" % w[5]], (base, base + nwin), "random", os.path.join(tr, "%s_%s_win" % (pid, scn)), extra=["--switch", str(w[5])])
+                    e4 += ew
+                    for k, v in sw_.items():
+                        s4[k] = s4.get(k, 0) + v
+            execs += e1 + e2 + e3 + e4
+            for s in (s1, s2, s3, s4):
                 for k, v in s.items():
                     status[k] = status.get(k, 0) + v
     V.extra["executions"] = len(execs)
